@@ -368,7 +368,7 @@ def attribute(spec, r, src):
         m = callee.rsplit(".", 1)[-1]
         if (m in ("zip", "chain", "isA?") or callee in ("List.collect", "Tuple.collect")) and ("Expected object." in p or c == "signal"):
             return "KF-C16-objparam"
-    if k == "sub" and crash:
+    if k == "sub" and (crash or c == "timeout"):
         if spec[3] == "isA?" and "Expected object." in p:
             return "KF-C16-objparam"
         return "KF-C16-subclass"
